@@ -102,11 +102,11 @@ Definition hostile_src (fs : list val) (x : vref) : bool :=
 (* both sides foreign (or nil): errors.Is runs no gerror code at all; whatever the stdlib does
    there (it panics on two values of one deeply non-comparable dynamic type) is not one of "these
    calls" — only the agreement with the model is checked *)
-(* typed-nil pointers of gerror types (dynamic type ids 50 and 104) are foreign VALUES in the model
+(* typed-nil pointers of gerror types (dynamic type ids 50, 104) and values embedding a nil *GError (51) are foreign VALUES in the model
    but their methods are gerror code *)
 Definition typed_nil_gerror (fs : list val) (x : vref) : bool :=
   match x with
-  | RF k => match nth k fs VNil with VF t _ _ _ => N.eqb t 50 || N.eqb t 104 | _ => false end
+  | RF k => match nth k fs VNil with VF t _ _ _ => N.eqb t 50 || N.eqb t 51 || N.eqb t 104 | _ => false end
   | _ => false
   end.
 
